@@ -21,12 +21,12 @@ RULE = ('cases are histories of 3-8 signing operations, each followed by a contr
         'peer\'s view of signer/hash input/integers changed) reached PGPKey.verify and its verdict was compared with the '
         'ledger; distinct = distinct (signature kind, fault kind) multisets among non-trivial runs')
 TIERS = {'quick': {'runs': 3000, 'budget_s': 80}, 'thorough': {'runs': 250000, 'budget_s': 1500}}
-PROBES = ('verified_after_signature_expiry', 'backsig_replayed_under_other_primary', 'str_subject_with_lone_surrogate', 'issuer_rewrite_to_encryption_subkey', 'control_verified', 'ledger_entry_not_ref_valid', 'control_failed', 'nonsemantic_skipped', 'mutant_rejected_raise', 'mutant_rejected_falsy',
+PROBES = ('ecdh_kdf_parameters_altered', 'subject_key_in_private_form', 'verified_after_signature_expiry', 'backsig_replayed_under_other_primary', 'str_subject_with_lone_surrogate', 'issuer_rewrite_to_encryption_subkey', 'control_verified', 'ledger_entry_not_ref_valid', 'control_failed', 'nonsemantic_skipped', 'mutant_rejected_raise', 'mutant_rejected_falsy',
           'ref_unparsable_skipped', 'splice_cross_history', 'issuer_rewrite', 'subkey_signer', 'msg_multi_signer',
           'verifier_behind_signer', 'sig_expired_at_verify')
 FAULTS = ('sig_mpi_widen', 'sig_flip_hdr', 'sig_flip_hlen', 'sig_flip_hashed', 'sig_flip_mpi', 'sig_type', 'sig_halg', 'sig_pkalg', 'issuer_rewrite',
           'doc_flip', 'doc_append', 'doc_truncate', 'doc_eol', 'uid_edit', 'uid_swap', 'key_flip', 'key_ctime', 'subkey_swap',
-          'target_swap', 'splice_sig', 'msg_literal_flip', 'msg_sig_flip', 'cleartext_edit', 'sp_value', 'doc_surrogate')
+          'target_swap', 'splice_sig', 'msg_literal_flip', 'msg_sig_flip', 'cleartext_edit', 'sp_value', 'doc_surrogate', 'key_kdf')
 
 TYPE_SWAPS = {0x00: [0x01, 0x02], 0x01: [0x00, 0x02], 0x02: [0x40, 0x00], 0x40: [0x02, 0x00], 0x10: [0x11, 0x13, 0x30], 0x11: [0x10, 0x12],
               0x12: [0x13, 0x10], 0x13: [0x10, 0x30, 0x16], 0x16: [0x13, 0x10], 0x18: [0x19, 0x28], 0x19: [0x18], 0x1F: [0x20],
@@ -49,7 +49,8 @@ def generate(rng, tier):
             st['compression'] = rng.choice([0, 0, 1, 2])
         nd = rng.choice([2, 3, 4, 6]) if tier == 'quick' else rng.choice([3, 5, 8])
         st['deliveries'] = [{'fault': rng.choice(FAULTS), 'pos': rng.random(), 'bit': rng.randrange(8), 'alt': rng.randrange(1 << 16),
-                             'copies': rng.random() < 0.35, 'late': rng.random() < 0.4} for _ in range(nd)]
+                             'copies': rng.random() < 0.35, 'late': rng.random() < 0.4, 'subject_private': rng.random() < 0.35}
+                            for _ in range(nd)]
         steps.append(st)
     return {'config': {'keys': keys, 'start_us': 1_600_000_000_000_000}, 'steps': steps}
 
@@ -282,6 +283,23 @@ def mutate(art, d, w, history, ctx):
                 except UnicodeDecodeError:
                     s['as_str'] = False
             return a, False
+        if f == 'key_kdf':
+            # an ECDH subkey's KDF parameters (hash and key-wrap cipher ids) replaced by other assigned values: part of the
+            # signed key material like the point itself
+            if s['t'] != 'subkey':
+                return None
+            from ..ref import keys as rk
+            for p, b0, b1 in _packets_with_offsets(s['keybytes']):
+                if p.tag == 14 and p.body[5] == 18 and rk.parse_pub(p.body).fingerprint == s['subfp']:
+                    m = bytearray(s['keybytes'])
+                    o = b1 - 1 - (d['alt'] % 2)
+                    alts = [x for x in ((7, 8, 9) if o == b1 - 1 else (8, 9, 10)) if x != m[o]]
+                    m[o] = alts[(d['alt'] >> 1) % len(alts)]
+                    s['keybytes'] = bytes(m)
+                    s['subfp'] = rk.parse_pub(bytes(m[b0:b1])).fingerprint
+                    ctx.probe('ecdh_kdf_parameters_altered')
+                    return a, False
+            return None
         if f in ('uid_edit', 'uid_swap', 'key_flip', 'key_ctime', 'subkey_swap', 'target_swap'):
             if s['t'] not in ('uid', 'key', 'subkey'):
                 return None
@@ -542,6 +560,31 @@ def _backsig_replay(w, art, step, case, ctx, pairs):
     ctx.probe('mutant_rejected_falsy')
 
 
+def _private_form_subject(w, art, mut, ctx):
+    """The subject key is held by the verifier in its private form (the owner checking signatures on its own key): the same
+    packets with the secret parts behind the - possibly altered - public parts.  What is signed are the public parts as
+    they stand in the packets."""
+    from ..ref import keys as rk
+    owner = [k for k in w.keys.values() if not k.is_public and bytes(k.pubkey) == art.subject['keybytes']]
+    if not owner:
+        return
+    try:
+        secs = [p for p in split_packets(bytes(owner[0])) if p.tag in (5, 7)]
+        out = bytearray()
+        j = 0
+        for p in split_packets(mut.subject['keybytes']):
+            if p.tag in (6, 14):
+                tail = secs[j].body[rk.parse_pub(secs[j].body).publen:]
+                out += encode_packet(5 if p.tag == 6 else 7, p.body + tail)
+                j += 1
+            else:
+                out += p.raw
+    except (WireError, IndexError, ValueError, rk.KeyError_):
+        return
+    mut.subject['keybytes_private'] = bytes(out)
+    ctx.probe('subject_key_in_private_form')
+
+
 def _deliver(w, art, mut, definitely, d, step, ledger, ctx, pairs):
     rv = sigworld.ref_view(mut, canonical=True)
     entries = [e for e in rv.entries if e[1] is not None and e[2] is not None]
@@ -560,6 +603,8 @@ def _deliver(w, art, mut, definitely, d, step, ledger, ctx, pairs):
     if late:
         clock.advance((step['opts']['expires_s'] + 86400) * 1_000_000)
         ctx.probe('verified_after_signature_expiry')
+    if d.get('subject_private') and mut.subject['t'] in ('key', 'uid', 'subkey'):
+        _private_form_subject(w, art, mut, ctx)
     try:
         with watchdog(30):
             try:
